@@ -48,13 +48,23 @@ StateOfLoad(e) == [er |-> ErOf(e.pre), ccr |-> CcrOf(e.pre), pc |-> PcOf(e.pre),
 PostState(e, mem2) == [er |-> ErOf(e.post), ccr |-> CcrOf(e.post), pc |-> PcOf(e.post), ov |-> mem2.ov, li |-> vS.li]
 
 LoadEvent(e) ==
-  /\ vR' = [vR EXCEPT !.s = StateOfLoad(e), !.pend = e.pend, !.req = e.pend, !.ent = <<>>, !.sum = <<0, 0>>, !.ports = [k \in Ports |-> PortInit], !.odr = [k \in Ports |-> 0], !.tm = TimerTraceInit, !.paused = FALSE, !.stopped = FALSE, !.exit = IF "exit" \in DOMAIN e THEN e.exit[1] * P16 + e.exit[2] ELSE -1]
+  /\ vR' = [vR EXCEPT !.s = StateOfLoad(e), !.pend = e.pend, !.req = e.pend, !.ent = <<>>, !.sum = IF "sum" \in DOMAIN e THEN e.sum ELSE <<0, 0>>, !.ports = [k \in Ports |-> PortInit], !.odr = [k \in Ports |-> 0], !.tm = TimerTraceInit, !.paused = FALSE, !.stopped = FALSE, !.exit = IF "exit" \in DOMAIN e THEN e.exit[1] * P16 + e.exit[2] ELSE -1]
+
+SameBag(a, b) == Len(a) = Len(b) /\ \A v \in 0..255 : Cardinality({i \in 1..Len(a) : a[i] = v}) = Cardinality({i \in 1..Len(b) : b[i] = v})
+(* `snap`: a state snapshot logged every few thousand iterations of a long run.  As the FIRST event of a  *)
+(* shard it initialises the trace state; anywhere else it must agree with the state the specification    *)
+(* has reached (so consecutive shards of one run chain soundly: shard k ends in the check, shard k+1     *)
+(* starts from the same snapshot - the orchestrator duplicates the event at the cut).                    *)
+SnapEvent(e) ==
+  IF l = 1 THEN LoadEvent(e) /\ TRUE
+  ELSE /\ IF ErOf(e.pre) = vS.er /\ CcrOf(e.pre) = vS.ccr /\ PcOf(e.pre) = vS.pc /\ e.sum = vSum /\ SameBag(e.pend, vPend) THEN TRUE
+          ELSE Rep("MISMATCH", e, "snapshot", <<"state reached by the specification differs from the snapshot">>)
+       /\ vR' = [vR EXCEPT !.cov = cov \cup {<<"snap", "">>}]
 
 ReqEvent(e) ==
   /\ vR' = [vR EXCEPT !.pend = Request(vPend, e.v), !.req = Append(vReq, e.v)]
 
 (* the logged queue must be the spec's multiset of pending requests *)
-SameBag(a, b) == Len(a) = Len(b) /\ \A v \in 0..255 : Cardinality({i \in 1..Len(a) : a[i] = v}) = Cardinality({i \in 1..Len(b) : b[i] = v})
 
 (* instruction boundary: e.entered = vector entered, 0 = none *)
 AccEvent(e) ==
@@ -76,7 +86,7 @@ AccEvent(e) ==
        /\ vR' = [vR EXCEPT !.s = PostState(e, WrAll(M(vS), e.wr)), !.pend = e.pend, !.ent = Append(vEnt, v), !.cov = cov \cup {<<"acc", "entered">>}]
 
 StepOK(e, x) ==
-  IF x.pw THEN e.res # "panic"
+  IF x.pw \/ (x.q = "odd" /\ PROP # "C09") THEN e.res # "panic"
   ELSE IF x.res = "ok" THEN e.res = "ok" /\ PostOK(e, SS(vS), x) /\ (PROP \in {"C20", "ALL"} /\ x.cyc >= 0 => e.st = x.cyc)
   ELSE IF x.res = "err" THEN e.res # "ok"
   ELSE e.res # "panic"
@@ -188,7 +198,7 @@ AfterAccept(c) ==
   ELSE LET x == AcceptF(SS(vS), c)
            w == CHOOSE q \in x.wr : TRUE
        IN [ok |-> x.res = "ok", s |-> [er |-> x.er, ccr |-> x.ccr, pc |-> x.pc, mem |-> WrAll(M(vS), w)], wr |-> w]
-StepGood(x, post) == x.res = "any" \/ (x.res = "ok" /\ RegsOK(post, x))
+StepGood(x, post) == x.res = "any" \/ x.q = "odd" \/ (x.res = "ok" /\ RegsOK(post, x))
 
 (* value of address a in the logged diff d, or in memory m if it did not change *)
 Final(d, m, a) == LET dv == {j \in 1..Len(d) : d[j][1] = a} IN IF dv = {} THEN Rd(m, a) ELSE d[CHOOSE j \in dv : TRUE][2]
@@ -213,7 +223,7 @@ ItEvent(e) ==
       found == StepGood(x0, e.post) \/ Gv # {}
       ta == IF c = 0 THEN a0 ELSE av[c]
       x  == IF c = 0 THEN x0 ELSE xv[c]
-      anyx == x.res = "any"
+      anyx == x.res = "any" \/ x.q = "odd"
       m1 == ta.s.mem                                   \* memory after the acceptance, before the instruction
       alts == {w \in x.wr : AltOK(w, e.wr, m1)}
       w == IF alts = {} THEN <<>> ELSE Resolve(CHOOSE q \in alts : TRUE, e.wr, m1)
@@ -280,6 +290,7 @@ Consume ==
   /\ LET e == Rec[l]
      IN CASE e.k = "load" -> LoadEvent(e)
           [] e.k = "req" -> ReqEvent(e)
+          [] e.k = "snap" -> SnapEvent(e)
           [] e.k = "acc" -> AccEvent(e)
           [] e.k = "step" -> StepEvent(e)
           [] e.k = "end" -> EndEvent(e)
